@@ -24,6 +24,7 @@ structure Placed (p p' : Pool) (slot fam bytes : Nat) : Prop where
   align : p'.align = p.align
   size : p'.size = p.size
   slots : (p'.resv.map (·.slot)).Perm (slot :: p.resv.map (·.slot))
+  members : ∀ r' ∈ p'.resv, (r'.slot = slot ∧ r'.fam = fam) ∨ r' ∈ p.resv
 
 theorem place_ok {c : Cfg} (hc : c.Fixed) {p : Pool} (h : PInv p) {slot fam offset bytes : Nat}
     (hbuf : p.hasBuf = true) (hfresh : findSlot slot p.resv = none)
@@ -41,9 +42,13 @@ theorem place_ok {c : Cfg} (hc : c.Fixed) {p : Pool} (h : PInv p) {slot fam offs
     rw [rup_add_of_dvd h.apos hal]; exact hfit
   have hinv := addRef_inv hc.2.2.1 h ⟨slot, offset, bytes, fam⟩ hfresh hb hbuf (fun r hr _ => hns r hr)
   have hsame := addRef_sameContents (c := c) (p := p) ⟨slot, offset, bytes, fam⟩ hfresh
-  refine ⟨hinv, hsame.1, hsame.2, ⟨⟨slot, offset, bytes, fam⟩, ?_, rfl, rfl, hns⟩, rfl, rfl, ?_⟩
+  refine ⟨hinv, hsame.1, hsame.2, ⟨⟨slot, offset, bytes, fam⟩, ?_, rfl, rfl, hns⟩, rfl, rfl, ?_, ?_⟩
   · exact findSlot_insertResv_self (m := ⟨slot, offset, bytes, fam⟩) hfresh
   · exact (insertResv_perm ⟨slot, offset, bytes, fam⟩ p.resv).map (·.slot)
+  · intro r' hr'
+    rcases (mem_insertResv _ r' _).1 hr' with e | hm
+    · left; rw [e]; exact ⟨rfl, rfl⟩
+    · right; exact hm
 
 structure Reserved (p p' : Pool) (slot fam bytes : Nat) : Prop where
   inv : PInv p'
@@ -52,6 +57,7 @@ structure Reserved (p p' : Pool) (slot fam bytes : Nat) : Prop where
   new : ∃ r, findSlot slot p'.resv = some r ∧ r.size = bytes ∧ r.fam = fam
   align : p'.align = p.align
   slots : (p'.resv.map (·.slot)).Perm (slot :: p.resv.map (·.slot))
+  members : ∀ r' ∈ p'.resv, (r'.slot = slot ∧ r'.fam = fam) ∨ ∃ r ∈ p.resv, r'.fam = r.fam ∧ r'.slot = r.slot
 
 private theorem placed_after_resize {c : Cfg} (hc : c.Fixed) {p p1 : Pool} (h : PInv p)
     {slot fam bytes : Nat} (hfresh : findSlot slot p.resv = none)
@@ -75,10 +81,14 @@ private theorem placed_after_resize {c : Cfg} (hc : c.Fixed) {p p1 : Pool} (h : 
     (by rw [hr.align, hr.size, hr.reserved]; exact hsz)
     (fun r hr' => Or.inl (hr.below r hr'))
   refine ⟨p', hp', ⟨pl.inv, hr.packed.1.trans pl.contents, SameAliasing.trans hr.packed.1 hr.packed.2 pl.aliasing, ?_,
-    pl.align.trans hr.align, ?_⟩⟩
+    pl.align.trans hr.align, ?_, ?_⟩⟩
   · obtain ⟨r, h1, h2, h3, _⟩ := pl.new
     exact ⟨r, h1, h2, h3⟩
   · rw [← hr.slots]; exact pl.slots
+  · intro r' hr'
+    rcases pl.members r' hr' with h1 | h1
+    · exact Or.inl h1
+    · exact Or.inr (hr.members r' h1)
 
 theorem reserve_ok {c : Cfg} (hc : c.Fixed) {d : Dev} {p : Pool} (h : PInv p) {slot fam bytes : Nat}
     (hb : 0 < bytes) (hfresh : findSlot slot p.resv = none) :
@@ -111,7 +121,8 @@ theorem reserve_ok {c : Cfg} (hc : c.Fixed) {d : Dev} {p : Pool} (h : PInv p) {s
         · omega
       obtain ⟨p', hp', pl⟩ := place_ok hc h (slot := slot) (fam := fam) (offset := 0) (bytes := bytes) hbuf hfresh
         (Nat.dvd_zero _) (by omega) (fun r hr => by rw [hnil] at hr; simp at hr)
-      refine ⟨d, p', by simp only [hp', Except.map], pl.inv, pl.contents, pl.aliasing, ?_, pl.align, pl.slots⟩
+      refine ⟨d, p', by simp only [hp', Except.map], pl.inv, pl.contents, pl.aliasing, ?_, pl.align, pl.slots,
+        fun r' hr' => (pl.members r' hr').imp id (fun hm => ⟨r', hm, rfl, rfl⟩)⟩
       obtain ⟨r, h1, h2, h3, _⟩ := pl.new
       exact ⟨r, h1, h2, h3⟩
     · rename_i hne
@@ -126,7 +137,8 @@ theorem reserve_ok {c : Cfg} (hc : c.Fixed) {d : Dev} {p : Pool} (h : PInv p) {s
         obtain ⟨p', hp', pl⟩ := place_ok hc h (slot := slot) (fam := fam)
           (offset := findHole p.align bytes 0 p.resv) (bytes := bytes) hbuf hfresh
           (findHole_dvd bytes p.resv 0 (Nat.dvd_zero _)) hfit hspec.2
-        refine ⟨d, p', by simp only [hp', Except.map], pl.inv, pl.contents, pl.aliasing, ?_, pl.align, pl.slots⟩
+        refine ⟨d, p', by simp only [hp', Except.map], pl.inv, pl.contents, pl.aliasing, ?_, pl.align, pl.slots,
+          fun r' hr' => (pl.members r' hr').imp id (fun hm => ⟨r', hm, rfl, rfl⟩)⟩
         obtain ⟨r, h1, h2, h3, _⟩ := pl.new
         exact ⟨r, h1, h2, h3⟩
       · -- no gap fits: pack (forced) and put the block behind
